@@ -8,6 +8,11 @@ def run(ctx):
     args = ["-thorough"] if not ctx.quick else []
     trace, _ = routerfam.run_mode(ctx, drv, "c08", args)
     routerfam.validate(ctx, trace, only=["Inv_C08_", "Unconsumable"], require_events=300)
+    # the same timed scenarios with the second-level cache (a minimal RESP3 server stands in for redis), alone and
+    # behind the memory cache
+    for how in (("only",) if ctx.quick else ("only", "both")):
+        trace, _ = routerfam.run_mode(ctx, drv, "c08-redis" + how, args + ["-redis", how])
+        routerfam.validate(ctx, trace, only=["Inv_C08_", "Unconsumable"], require_events=300)
     # last clause at the memory cache: a store-if-absent (error responses) never replaces an entry that is present,
     # also when a plain store of the same key runs at the same time (MemCache.tla: NxNeverDisplaces)
     ctx.exhaustive("MemCache_MC", "MemCache_MC", timeout=900)
@@ -21,7 +26,7 @@ def run(ctx):
     ctx.assumptions += [
         "timed scenarios run one per router instance at low load; all bounds are one-sided with the 2 s cache-clock granularity the property grants",
         "elapsed time since the fetch is bounded from below by (client send instant - the proxy's own stored instant from the hook)",
-        "TTL 2^32-1 is not generated (TLC integers are 32-bit signed); memory cache only (no redis server offline)",
+        "TTL 2^32-1 is not generated (TLC integers are 32-bit signed); the redis cache talks to a minimal RESP3 server of the harness (HELLO, CLIENT, PING, GET, SET NX PX), not to a real redis",
         "the 30 s caps (NXDOMAIN, record-less answers) are exercised in the thorough tier only",
     ]
     return ctx.finish()
